@@ -143,6 +143,37 @@ example : events (runBytes (feedBytesCode toyP) defectChunks)
       = [.streamOpen "stream".toList, .stanza "m:ñ".toList] := by
   decide +kernel
 
+/-- the toy stream `<stream:stream><m>` U+FEFF `x</m>` and its bytes cut right before EF BB BF -/
+def zwnbspItems : List (Item (List Char)) := [toyHdr, toyStanza "<m>\uFEFFx</m>" "m:\uFEFFx"]
+def zwnbspChunks : List Bytes :=
+  [ [0x3c,0x73,0x74,0x72,0x65,0x61,0x6d,0x3a,0x73,0x74,0x72,0x65,0x61,0x6d,0x3e, 0x3c,0x6d,0x3e],
+    [0xef,0xbb,0xbf, 0x78, 0x3c,0x2f,0x6d,0x3e] ]
+
+/-- **Second defect of today's code (same cause, same fix).**  Even when every read boundary is a character
+boundary (every chunk well-formed UTF-8 on its own) the byte-level property is false: `QString::fromUtf8` drops
+a BOM at offset 0 of EVERY call, so a read that happens to start with U+FEFF ZERO WIDTH NO-BREAK SPACE (a legal
+XML character) loses it.  This is why `framing_bytes_split_independent_partial` needs `U8.Clean` and not just
+`isValid`.  Stops compiling (delete it) once `feedBytesCode := feedBytesStateful`. -/
+theorem C03_defect_zwnbsp_at_read_start :
+    ¬ ∀ (E : Type) (P : Parser E) (items : List (Item E)) (chunks : List Bytes) (cps : List Nat),
+        PrefixOracle P items → decode? chunks.flatten = some cps → toChars cps = textOf items →
+        (∀ c ∈ chunks, isValid c = true) →
+        events (runBytes (feedBytesCode P) chunks) = events (runBytes (feedBytesCode P) [chunks.flatten]) := by
+  intro h
+  have h1 := h (List Char) toyP zwnbspItems zwnbspChunks
+    (decodeLossy zwnbspChunks.flatten)
+    (checkOracle_sound _ _ (by decide +kernel)) (by decide +kernel) (by decide +kernel) (by decide +kernel)
+  revert h1
+  decide +kernel
+
+example : events (runBytes (feedBytesCode toyP) zwnbspChunks)
+      = [.streamOpen "stream".toList, .stanza "m:x".toList]
+    ∧ events (runBytes (feedBytesCode toyP) [zwnbspChunks.flatten])
+      = [.streamOpen "stream".toList, .stanza "m:\uFEFFx".toList]
+    ∧ events (runBytes (feedBytesStateful toyP) zwnbspChunks)
+      = [.streamOpen "stream".toList, .stanza "m:\uFEFFx".toList] := by
+  decide +kernel
+
 /-! ### Non-vacuity: `PrefixOracle` is satisfiable, and the hypotheses of the byte-level theorems are met -/
 
 /-- header, two stanzas with a keep-alive blank between them, closing tag -/
